@@ -1018,7 +1018,24 @@ fn main() {
     }
     if run.wants("storage_stream") {
         let n = if run.arg_u64("memcheck", 0) == 1 { 24 } else { t.pick(160, 6_000) };
-        run.parallel("storage_stream", n, 0.5, |c, rng, st| block_on(storage_stream_case(c, rng, st)));
+        run.parallel("storage_stream", n, 0.5, |c, rng, st| {
+            // this section hands only legal arguments to the repository's streaming API and to
+            // tokio's own read / write helpers on top of it: a panic anywhere below (also one that
+            // tokio raises later because a ReadBuf was left in an impossible state) is the
+            // repository's fault, not a harness fault
+            let r = std::panic::catch_unwind(std::panic::AssertUnwindSafe(|| {
+                let mut local = Stats::default();
+                block_on(storage_stream_case(c, rng, &mut local));
+                local
+            }));
+            match r {
+                Ok(local) => st.merge(local),
+                Err(p) => {
+                    let loc = vcore::run::take_last_panic_location();
+                    st.violation("C13/storage_stream/panicked", json!({"case": c, "panic": vcore::run::panic_message(&p), "location": loc}));
+                }
+            }
+        });
     }
     if run.wants("vector_untyped") {
         // Vector in an untyped position around the three limits of its read-back shape (regression
